@@ -53,6 +53,17 @@ fn main() {
                 Err(_) => println!("{{\"panicked\":true}}"),
             }
         }
+        "searchfile" => {
+            // searchfile <file with expression> <json>   (no catch_unwind: a stack overflow aborts the process)
+            let e = std::fs::read_to_string(&a[2]).unwrap();
+            match compile(&e) {
+                Err(err) => println!("{{\"compile_err_offset\":{}}}", err.offset),
+                Ok(x) => match x.search(Variable::from_json(&a[3]).unwrap()) {
+                    Ok(_) => println!("{{\"ok\":true}}"),
+                    Err(err) => println!("{{\"search_err_offset\":{}}}", err.offset),
+                },
+            }
+        }
         _ => {}
     }
 }
